@@ -47,6 +47,29 @@ pub struct Case {
 
 pub struct C12;
 
+/// the element types the checks run at. The serialisation round trip is written against the concrete types, so
+/// that whatever bounds a changed tree puts on `KMeans<T>: Deserialize` are met (or fail) at f32 / f64, not at a
+/// generic parameter of the harness.
+pub trait Elem: RealNumber + Sum + Serialize {
+    fn restore_kmeans(m: &KMeans<Self>, how: u8) -> Result<KMeans<Self>, String>;
+}
+macro_rules! elem {
+    ($t:ty) => {
+        impl Elem for $t {
+            fn restore_kmeans(m: &KMeans<$t>, how: u8) -> Result<KMeans<$t>, String> {
+                if how == 1 {
+                    bincode::serialize(m).map_err(|e| e.to_string()).and_then(|b| bincode::deserialize::<KMeans<$t>>(&b).map_err(|e| e.to_string()))
+                } else {
+                    serde_json::to_value(m).map_err(|e| e.to_string()).and_then(|v| serde_json::from_value::<KMeans<$t>>(v).map_err(|e| e.to_string()))
+                }
+            }
+        }
+    };
+}
+elem!(f32);
+elem!(f64);
+
+
 struct Tol {
     /// unit roundoff of the element type times a safety factor
     eps_k: f64,
@@ -278,7 +301,7 @@ struct StepLog {
 }
 
 impl C12 {
-    fn run_fit<T: RealNumber + Sum + Serialize + serde::de::DeserializeOwned>(&self, case: &Case, rep: &mut Report) {
+    fn run_fit<T: Elem>(&self, case: &Case, rep: &mut Report) {
         let data = &case.data;
         let n = data.len();
         let p = data[0].len();
@@ -510,11 +533,7 @@ impl C12 {
                             }
                         }
                         if case.roundtrip > 0 && rep.violation.is_none() {
-                            let restored: Result<KMeans<T>, String> = if case.roundtrip == 1 {
-                                bincode::serialize(&model).map_err(|e| e.to_string()).and_then(|b| bincode::deserialize(&b).map_err(|e| e.to_string()))
-                            } else {
-                                serde_json::to_value(&model).map_err(|e| e.to_string()).and_then(|v| serde_json::from_value(v).map_err(|e| e.to_string()))
-                            };
+                            let restored: Result<KMeans<T>, String> = T::restore_kmeans(&model, case.roundtrip);
                             rep.count("fault.model-restored-from-serialised-form", 1);
                             match restored {
                                 Err(e) => rep.fail("restore-failed", "model", format!("{}: the fitted model does not survive serialisation: {}", ctx, e)),
